@@ -79,14 +79,19 @@ static int damage(int kind, unsigned char *m, size_t flen, cfg_t c, int n, const
     case 52: *name = "orig=2^32+own";  { uint64_t o; memcpy(&o, m + 12, 8); o += 1ull << 32; memcpy(m + 12, &o, 8); } reseal(m); return 1;
     case 53: *name = "bmsize=4";       wr32(m + 8, 4); reseal(m); return 1;
     case 54: *name = "intact";         return 1;
+    case 55: *name = "size+2";         wr32(m + 4, (uint32_t)(bs + 2)); reseal(m); return 1;
+    case 56: *name = "size+4096";      wr32(m + 4, (uint32_t)(bs + 4096)); reseal(m); return 1;
+    case 57: *name = "size=2^31";      wr32(m + 4, 0x80000000u); reseal(m); return 1;
     default: return 0;
     }
 }
-#define N_DAMAGE 55
+#define N_DAMAGE 58
 
-static void cat_stripe(cfg_t c, size_t len, int legacy, int tier) {
+static void cat_stripe(cfg_t c, size_t len, int legacy, int tier, int reader_env) {
     stripe_t s;
     if (stripe_make(&s, c, len, 0, legacy) != 0) return;
+    g_env_readers = reader_env;
+    if (reader_env) stat_add("cat.stripes_read_with_switch_set", 1);
     int n = s.n;
     unsigned char *mut = malloc(s.flen);
     char **fr = malloc(sizeof(char *) * (n + 2));
@@ -96,10 +101,9 @@ static void cat_stripe(cfg_t c, size_t len, int legacy, int tier) {
         memcpy(mut, s.all[fi], s.flen);
         if (!damage(kind, mut, s.flen, c, n, &name)) continue;
         { char key[64]; snprintf(key, sizeof key, "cat.%s", name); stat_add(key, 1); }
-        /* readers */
+        /* readers (the two that take no length trust the header's size: not given inflated sizes) */
         op_hdrinv(mut, 0);
-        op_meta(mut, s.flen, kind % 5 == 0 ? 2 : 1);
-        op_fraginv(c, mut, s.flen, 1);
+        if (kind < 55 || c.ct != 2) { op_meta(mut, s.flen, kind % 5 == 0 ? 2 : 1); op_fraginv(c, mut, s.flen, 1); }
         /* the stripe with the damaged member */
         for (int i = 0; i < n; i++) fr[i] = i == fi ? (char *)mut : s.all[i];
         op_stripe(c, n, fr, s.flen);
@@ -118,10 +122,11 @@ static void cat_stripe(cfg_t c, size_t len, int legacy, int tier) {
         if (tier || kind % 2) op_dec_g(c, !((kind >> 1) & 1), s.flen, cnt, fr);
         /* reconstruct: the damaged fragment among the sources (destination: the withheld one); the damaged
            fragment present while it is itself the destination */
-        op_rec_g(c, 0, other, s.flen, cnt, fr);
-        if (tier || kind % 3 == 0) op_rec_g(c, 0, fi, s.flen, cnt, fr);
+        op_rec_g(c, reader_env, other, s.flen, cnt, fr);      /* reconstruct also writes: the switch is its input */
+        if (tier || kind % 3 == 0) op_rec_g(c, reader_env, fi, s.flen, cnt, fr);
     }
     free(fr); free(mut);
+    g_env_readers = 0;
     stripe_free(&s);
 }
 
@@ -132,8 +137,9 @@ void suite_cat(int tier) {
     int ns = tier ? 8 : 4;
     for (int i = 0; i < ns; i++) {
         int j = tier ? i : (i + (int)rnd(2) * 4) % 8;
-        cat_stripe(cfgs[j], lens[j] + rnd(3), (i & 1) && cfgs[j].ct == 2, tier);
+        /* writer flavour x reader environment: all four combinations at every seed */
+        cat_stripe(cfgs[j], lens[j] + rnd(3), (i & 1) && cfgs[j].ct == 2, tier, (i >> 1) & 1);
         stat_add("cat.stripes", 1);
     }
-    if (g_isal) cat_stripe((cfg_t){ 4, 3, 2, 2, 2 }, 40 + rnd(9), 0, tier);
+    if (g_isal) cat_stripe((cfg_t){ 4, 3, 2, 2, 2 }, 40 + rnd(9), 0, tier, 1);
 }
